@@ -216,13 +216,13 @@ type poolMon struct {
 	seq  atomic.Int64
 	logs [logCap]atomic.Pointer[event]
 
-	running    atomic.Int32 // WorkerFunc executions in progress
-	maxRunning atomic.Int32
-	inflight   atomic.Int32 // Serve()==true recorded, not yet closed / reported hijacked
-	maxWorkers atomic.Int32
-	maxReady   atomic.Int32
-	samples    atomic.Int64
-	stopped    atomic.Bool
+	running     atomic.Int32 // WorkerFunc executions in progress
+	maxRunning  atomic.Int32
+	inflight    atomic.Int32 // Serve()==true recorded, not yet closed / reported hijacked
+	maxWorkers  atomic.Int32
+	maxReady    atomic.Int32
+	samples     atomic.Int64
+	stopped     atomic.Bool
 	liveRefuted atomic.Bool // a bounded-liveness wait hit its cap in this case
 
 	vmu   sync.Mutex
@@ -796,6 +796,12 @@ func TestC13(t *testing.T) {
 						map[string]any{"spec": spec, "events": pm.events(), "other_keys_in_case": strings.Join(keys, ",")})
 				}
 			}
+		}
+		if stuck {
+			// a bounded-liveness wait (10 s) or the quiescence watchdog fired: every further case would
+			// spend the same caps; the verdict is already recorded, so the run is cut short.
+			r.Event("cases_skipped_after_liveness_refutation", n-(bi+1)*batchSize)
+			aborted = true
 		}
 	}
 	r.Set("hook_hits", hits)
